@@ -27,6 +27,7 @@ use vstd::prelude::*;
 //@@default-rule X6.world s/\.run_all\(\)/.run_all(Tracked(w))/
 //@@default-rule X6.world s/self\.(was_aborted|spawn_new_tasks|run_until_settled|is_done|process)\(\)/self.\1(Tracked(w))/
 //@@default-rule X6.world s/\.wake_join_handles\(\)/.wake_join_handles(Tracked(w))/
+//@@default-rule X6.world s/\.is_aborted\(\)/.is_aborted(Tracked(w))/
 
 verus! {
 
@@ -1163,7 +1164,6 @@ pub mod command_m {
                 cmd_outputs_appended(*old(w), *final(w)), // [C01/command-run_task/outputs-only-appended]
                 old(w).c_aborted ==> final(w).c_aborted,
                 final(w).join_notified == old(w).join_notified,
-//@rule X6.world * s/task\.is_aborted\(\)/task.is_aborted(Tracked(w))/
 //@rule X6.poll-waker 1 s/Arc::new\(CommandWaker \{/new_poll_waker(Tracked(w), CommandWaker {/
 //@rule X6.poll-waker 1 s/arc_waker\.clone\(\)\.into\(\)/waker_of(Tracked(w), &arc_waker)/
 //@rule X6.poll-waker 1 s/task\.future\.as_mut\(\)\.poll\(context\)/poll_task(Tracked(w), task, context)/
@@ -1333,6 +1333,7 @@ pub mod command_m {
                 (r matches Poll::Ready(None) ==> final(w).c_events.len() == 0 && final(w).c_effects.len() == 0 && final(self).tasks@.dom() =~= Set::<usize>::empty()), // [C01+C07/poll_next/end-of-stream-only-when-nothing-is-pending-and-no-task-is-left]
                 (r is Pending ==> final(w).c_events.len() == 0 && final(w).c_effects.len() == 0 && !(final(self).tasks@.dom() =~= Set::<usize>::empty())), // [C01+C07/poll_next/pending-only-when-both-queues-are-empty-and-a-task-remains]
                 (r is Pending && !old(w).c_aborted ==> final(w).c_spawn == 0 && final(w).c_ready == 0), // [C01/poll_next/pending-only-when-settled]
+                (r matches Poll::Ready(None) && !old(w).c_aborted ==> final(w).c_spawn == 0 && final(w).c_ready == 0), // [C01+C07/poll_next/end-of-stream-only-when-no-task-waits-to-be-started-or-run]
                 (r is Pending ==> !final(w).c_aborted), // [C01+C06+C13/poll_next/an-aborted-command-never-stays-pending-in-its-host]
                 (final(w).c_aborted && !(r matches Poll::Ready(Some(_))) ==> final(self).tasks@.dom() =~= Set::<usize>::empty()), // [C13/poll_next/an-aborted-command-with-no-output-left-holds-no-task]
 //@rule X12.pin-erasure 1 s/self\.deref_mut\(\)\.run_until_settled\(\)/self.run_until_settled(Tracked(w))/
